@@ -102,7 +102,7 @@ def gen(rng, tier):
     for n in (1, 2, 5, 40):
         for cl in (32, 64):
             cases.append(gnu_nostop_case(rng, n, cl))
-    m = 60 if tier == "quick" else 3000
+    m = 60 if tier == "quick" else 1000
     for _ in range(m):
         for kind in ("verdef", "verneed", "verdaux", "vernaux"):
             cases.append(viter_case(rng, kind, rng.random() < 0.5))
